@@ -152,6 +152,20 @@ class ClosableIter:
             raise ra[1]()
 
 
+class SizedClosableIter(ClosableIter):
+    """an iterable that also answers len() - the server asks, to give a one-element result a Content-Length -
+    and whose __len__ is application code like the rest (it may raise)"""
+
+    def __init__(self, app, key, gen, n, sc):
+        ClosableIter.__init__(self, app, key, gen)
+        self.n = n
+        self.sc = sc
+
+    def __len__(self):
+        self.app._maybe_raise(self.sc, "len")
+        return self.n
+
+
 class ClosableList(list):
     pass
 
@@ -356,6 +370,8 @@ class ScriptedApp:
                 app._finish(rec)
 
         rec["returned"] = True
+        if sc.get("sized"):
+            return SizedClosableIter(self, key, gen(), len(chunks), sc)
         if sc.get("has_close", True):
             return ClosableIter(self, key, gen())
         return gen()
